@@ -155,7 +155,7 @@ def run(ctx: Ctx) -> int:
         def tcp(loop, net, refuse=refuse):
             if refuse:
                 net.connect_mode = "refuse"
-        v = disc.run_discovery(plan, tcp_devices=tcp)
+        v = disc.run_discovery(plan, tcp_devices=tcp, timeout=[5, 1, 2, 0.8][len(vectors) % 4])     # the listen window is the caller's choice
         v.pop("devices", None)
         v["bad_kinds"] = kinds
         vectors.append(v)
